@@ -1,3 +1,5 @@
+//go:build verifshadow
+
 // osmonprobe: self-test of the shadow GOROOT interposer (run by setup.sh).
 package main
 
